@@ -53,8 +53,18 @@ class RIB:
         if not adj_rib_in:
             self.incoming.clear()
 
-    def enable(self, new_name: str, adj_rib_in: bool, adj_rib_out: bool, families: set[FamilyTuple]) -> None:
-        """Enable a disabled RIB with proper name and settings."""
+    # settings of a configuration that is still being parsed, see enable(defer=True) and commit()
+    _deferred: tuple[bool, bool, set[FamilyTuple]] | None = None
+
+    def enable(
+        self, new_name: str, adj_rib_in: bool, adj_rib_out: bool, families: set[FamilyTuple], defer: bool = False
+    ) -> None:
+        """Enable a disabled RIB with proper name and settings.
+
+        defer: the configuration this RIB belongs to is only being parsed and may still be refused.
+        The incoming/outgoing RIB of a neighbor which already exists are shared with its running
+        session, so they are left as they are until commit() is called.
+        """
         # Remove old placeholder from cache
         old_name = self.name
         if old_name in self._cache:
@@ -70,16 +80,9 @@ class RIB:
             cached_rib = self._cache[new_name]
             self.incoming = cached_rib.incoming
             self.outgoing = cached_rib.outgoing
-            self.incoming.enabled = True
-            self.outgoing.enabled = True
-            self.incoming.families = families
-            self.outgoing.families = families
-            self.outgoing.delete_cached_family(families)
-
-            if not adj_rib_out:
-                self.outgoing.clear()
-            if not adj_rib_in:
-                self.incoming.clear()
+            self._deferred = (adj_rib_in, adj_rib_out, families)
+            if not defer:
+                self.commit()
         else:
             # No cached RIB - enable our own incoming/outgoing
             self.incoming.enabled = True
@@ -91,6 +94,23 @@ class RIB:
 
         # Add/update cache with new name
         self._cache[new_name] = self
+
+    def commit(self) -> None:
+        """Apply to the shared RIBs the settings enable(defer=True) put aside."""
+        if self._deferred is None:
+            return
+        adj_rib_in, adj_rib_out, families = self._deferred
+        self._deferred = None
+        self.incoming.enabled = True
+        self.outgoing.enabled = True
+        self.incoming.families = families
+        self.outgoing.families = families
+        self.outgoing.delete_cached_family(families)
+
+        if not adj_rib_out:
+            self.outgoing.clear()
+        if not adj_rib_in:
+            self.incoming.clear()
 
     def reset(self) -> None:
         self.incoming.reset()
